@@ -322,7 +322,7 @@ def _run_stream_init_sync(
             app._call_state_cache.put(
                 call_id,
                 auth,
-                _ResolvedCall(result.call_state, result.output_schema, result.input_schema, stream_id),
+                _ResolvedCall(result.call_state, result.output_schema, result.input_schema, stream_id, call_token),
                 time.time(),
                 expires_at=float(call_created + app._token_ttl) if app._token_ttl > 0 else None,
             )
@@ -1170,8 +1170,10 @@ def _unpack_and_recover_state(
     that authenticated ``call_id`` used as a cache key.  A client cannot
     name a call id the server did not mint for it, so a cache hit can never
     hand back another principal's call state — and on a hit the presented
-    call token is not consulted at all, which is exactly the work we are
-    trying to avoid.
+    call token is only compared (by digest) with the token the entry was
+    built from, not opened, which is exactly the work we are trying to
+    avoid.  A request presenting any other call token takes the miss path,
+    so a warm worker rejects it like a cold one would.
 
     On a miss (cold process, evicted entry, or a request load-balanced to a
     node that never saw this stream's ``/init``) the client-supplied call
@@ -1214,6 +1216,12 @@ def _unpack_and_recover_state(
 
     now = time.time()
     resolved = app._call_state_cache.get(call_id, auth, now)
+    if resolved is not None and call_token is not None and not resolved.parsed_from(call_token):
+        # A hit stands in for opening the call token, so it may only answer for
+        # the very token it was built from.  A presented token that is anything
+        # else -- altered, re-sealed, another stream's -- is judged by the miss
+        # path, exactly as a worker with a cold cache would judge it.
+        resolved = None
     if resolved is None:
         resolved, call_created = _resolve_call_from_token(app, call_token, call_id, state_info, auth)
         # The entry must not outlive the call token that justifies it: a later
@@ -1340,4 +1348,4 @@ def _resolve_call_from_token(
                 status_code=HTTPStatus.BAD_REQUEST,
             ) from exc
 
-    return _ResolvedCall(call_state, output_schema, input_schema, stream_id), call_created
+    return _ResolvedCall(call_state, output_schema, input_schema, stream_id, call_token), call_created
